@@ -15,13 +15,14 @@
 (***************************************************************************)
 EXTENDS Integers, Sequences, FiniteSets, TLC
 NoDep(N) == [k \in 1..N |-> -1]
-Boundary(N) == {[key |-> <<-1, 0>>, dep |-> NoDep(N)], [key |-> <<N, N - 1>>, dep |-> NoDep(N)]}
-Init0(N) == [F |-> Boundary(N), ver |-> [k \in 1..N |-> 0], bad |-> <<>>]
-Has(s, key) == \E x \in s.F : x.key = key
-Get(s, key) == CHOOSE x \in s.F : x.key = key
-Fresh(s, key) == Has(s, key) /\ \A k \in 1..Len(s.ver) : Get(s, key).dep[k] \in {-1, s.ver[k]}
-Put(s, key, dep) == [s EXCEPT !.F = {x \in s.F : x.key # key} \cup {[key |-> key, dep |-> dep]}]
-Del(s, keys) == [s EXCEPT !.F = {x \in s.F : x.key \notin keys}]
+(* F is a function over a fixed key domain (<<>> = absent): TLC evaluates EXCEPT eagerly, so a trace of thousands of events keeps a flat state *)
+AllKeys(N) == {<<n, n + d>> : n \in -2..(N + 1), d \in {-1, 1}} \cup {<<n, n + d, n + d>> : n \in -2..(N + 1), d \in {-1, 1}}
+Init0(N) == [F |-> [k \in AllKeys(N) |-> IF k \in {<<-1, 0>>, <<N, N - 1>>} THEN NoDep(N) ELSE <<>>], ver |-> [k \in 1..N |-> 0], bad |-> <<>>]
+Has(s, key) == key \in DOMAIN s.F /\ s.F[key] # <<>>
+Get(s, key) == [key |-> key, dep |-> s.F[key]]
+Fresh(s, key) == Has(s, key) /\ \A k \in 1..Len(s.ver) : s.F[key][k] \in {-1, s.ver[k]}
+Put(s, key, dep) == [s EXCEPT !.F[key] = dep]
+Del4(s, a, b, c, d) == [s EXCEPT !.F[a] = <<>>, !.F[b] = <<>>, !.F[c] = <<>>, !.F[d] = <<>>]
 Flag(s, why) == [s EXCEPT !.bad = IF s.bad = <<>> THEN why ELSE s.bad]
 (* environment to the left of site n (sites < n) / to the right (sites > n); with precompute the derived entries are used when reading *)
 LKey(n) == <<n - 1, n>>
@@ -34,7 +35,7 @@ ReadAll(s, keys, what) == IF \A k \in keys : Fresh(s, k) THEN s
 Apply(s, e, pre) ==
     LET N == Len(s.ver) IN
     CASE e[1] = "write"  -> [s EXCEPT !.ver[e[2] + 1] = @ + 1]
-      [] e[1] = "clear"  -> Del(s, {<<e[2], e[2] - 1>>, <<e[2], e[2] + 1>>, <<e[2], e[2] - 1, e[2] - 1>>, <<e[2], e[2] + 1, e[2] + 1>>})
+      [] e[1] = "clear"  -> Del4(s, <<e[2], e[2] - 1>>, <<e[2], e[2] + 1>>, <<e[2], e[2] - 1, e[2] - 1>>, <<e[2], e[2] + 1, e[2] + 1>>)
       [] e[1] = "update" ->
             LET n == e[2]
                 src == IF e[3] = "last" THEN (IF pre /\ Has(s, <<n - 1, n, n>>) THEN <<n - 1, n, n>> ELSE <<n - 1, n>>)
@@ -49,8 +50,12 @@ Apply(s, e, pre) ==
                             ELSE ReadAll(s, {LKey(e[2]), RKey(e[3])}, "Heff2")
       [] e[1] \in {"heff0", "measure"} -> ReadAll(s, {<<e[2], e[3]>>, <<e[3], e[2]>>}, e[1])
 (* what an entry must contain to be meaningful: exactly the sites on its side *)
-SideOK(s) == \A x \in s.F : LET n == x.key[1]  m == x.key[2] IN
-                \A k \in 0..(Len(s.ver) - 1) : (x.dep[k + 1] # -1) <=> (IF m > n THEN k <= n /\ (Len(x.key) = 2 \/ TRUE) ELSE k >= n)
-RECURSIVE Run(_, _, _, _)
-Run(s, evs, pre, k) == IF k > Len(evs) THEN s ELSE Run(Apply(s, evs[k], pre), evs, pre, k + 1)
+SideOK(s) == \A key \in DOMAIN s.F : Has(s, key) => LET n == key[1]  m == key[2] IN
+                \A k \in 0..(Len(s.ver) - 1) : (s.F[key][k + 1] # -1) <=> (IF m > n THEN k <= n ELSE k >= n)
+(* fold Apply over the events; balanced recursion keeps the evaluation stack logarithmic in the length of a trace *)
+RECURSIVE RunRange(_, _, _, _, _)
+RunRange(s, evs, pre, lo, hi) == IF lo > hi THEN s
+                                 ELSE IF lo = hi THEN Apply(s, evs[lo], pre)
+                                 ELSE LET mid == (lo + hi) \div 2 IN RunRange(RunRange(s, evs, pre, lo, mid), evs, pre, mid + 1, hi)
+Run(s, evs, pre, k) == RunRange(s, evs, pre, k, Len(evs))
 =============================================================================
